@@ -1,1 +1,676 @@
-/-! Property theorems for C01 (not built yet). -/
+import Cellml.Load.Lemmas
+import Cellml.Units.Lemmas
+
+/-! # C01 — loading a CellML document preserves its mathematics (flattening fidelity)
+
+    Model: `Load.load` (Cellml/Load/{Doc,Connect,Loader}.lean) = `Parser.parse` after schema validation: variable
+    table, encapsulation, `_determine_connection_direction`, the `_add_connections` work list with `assigned_to` and
+    `connected_variable_mapping`, `symbol_generator`, conversion equations, `transform_constants`.
+
+    Semantics. Values are PHYSICAL: a valuation gives every variable its SI magnitude (`Rat`), and every derivative
+    its SI magnitude; a number `q [u]` denotes `q · ⟦scale of u⟧`. Scales are prime ↦ exponent maps; their
+    interpretation `den : Scale → Rat` is a PARAMETER of every theorem, constrained only by `DenOK` (respects equality of
+    scales, `den 1 = 1`). `Load.denInt` is an instance, exact for integer exponents (`denOK_denInt`).
+
+    Everything is proved for ALL documents: any number of components, any nesting, any chain length. -/
+
+namespace Cellml.Props.C01
+open Load PMap
+
+/-! ## 1. The work list terminates and builds a forest -/
+
+/-- `connect` is a total function (Lean accepted the well-founded definition on the measure
+    `(|deque|, |deque| + 1 − unchanged_loop_count)`), and it is the loop of the source: these are its unfolding equations. -/
+theorem connect_terminates (reg : Registry) (vt : VarTable) (l : List (VRef × VRef)) :
+    (∃ st, connect reg vt l = .ok st) ∨ (∃ e, connect reg vt l = .error e) := by
+  cases h : connect reg vt l with
+  | ok st => exact Or.inl ⟨st, rfl⟩
+  | error e => exact Or.inr ⟨e, rfl⟩
+
+theorem connectLoop_nil (reg : Registry) (vt : VarTable) (unch : Nat) (h : unch ≤ ([] : List (VRef × VRef)).length)
+    (st : CState) : connectLoop reg vt [] unch h st = .ok st := by
+  unfold connectLoop; rfl
+
+theorem connectLoop_cons (reg : Registry) (vt : VarTable) (c : VRef × VRef) (rest : List (VRef × VRef)) (unch : Nat)
+    (h : unch ≤ (c :: rest).length) (st : CState) :
+    connectLoop reg vt (c :: rest) unch h st =
+      match stepConn reg vt st c with
+      | .error e => .error e
+      | .ok none =>
+          if hlt : unch + 1 ≤ (rest ++ [c]).length then connectLoop reg vt (rest ++ [c]) (unch + 1) hlt st
+          else .error (.assertion "Unable to add connections to the model")
+      | .ok (some st') => connectLoop reg vt rest 0 (Nat.zero_le _) st' := by
+  rw [connectLoop.eq_2]
+  cases stepConn reg vt st c with
+  | error e => rfl
+  | ok o => cases o <;> rfl
+
+/-- When the work list succeeds, `connected_variable_mapping` is a function whose graph is exactly the set of
+    connections (target ↦ source), it is acyclic (`rank` strictly decreases from target to source), the `while` loop of
+    `symbol_generator` computes the structural `root`, every target's chain ends at a variable with no `in` interface,
+    the roots are exactly the non-targets, sources are their own roots, a variable has an `assigned_to` iff it is a
+    source or a target, and `assigned_to` always lies on the variable's own chain. -/
+theorem connect_forest {reg : Registry} {vt : VarTable} {l : List (VRef × VRef)} {st : CState}
+    (h : connect reg vt l = .ok st) :
+    (keys st.mapping).Nodup ∧
+    (∀ t s, st.mapping.lookup t = some s ↔ (s, t) ∈ l) ∧
+    (∀ t s, (s, t) ∈ l → rank st.mapping s < rank st.mapping t) ∧
+    (∀ v, rootOf st v = root st.mapping v) ∧
+    (∀ v, v ∈ keys st.mapping → Src vt (rootOf st v)) ∧
+    (∀ v, rootOf st v = v ↔ v ∉ keys st.mapping) ∧
+    (∀ v, Src vt v → rootOf st v = v) ∧
+    (∀ v, rootOf st (rootOf st v) = rootOf st v) ∧
+    (∀ v, (st.asg v).isSome ↔ (Src vt v ∨ v ∈ keys st.mapping)) ∧
+    (∀ v a, st.asg v = some a → rootOf st a = rootOf st v ∧ st.asg a = some a) := by
+  have inv := connect_inv h
+  have hroot : ∀ v, rootOf st v = root st.mapping v := fun v => inv.wf.resolve_eq_root _ v (Nat.le_refl _)
+  have hmem : ∀ t s, (t, s) ∈ st.mapping ↔ (s, t) ∈ l := by
+    intro t s
+    constructor
+    · exact inv.map_from t s
+    · intro hl
+      rcases inv.conn_in (s, t) hl with hd | hm
+      · simp at hd
+      · exact hm
+  refine ⟨inv.wf.keys_nodup, ?_, ?_, hroot, ?_, ?_, ?_, ?_, inv.asg_iff, ?_⟩
+  · intro t s; rw [inv.wf.lookup_iff, hmem]
+  · intro t s hl; exact inv.wf.rank_lt t s ((hmem t s).mpr hl)
+  · intro v hv; rw [hroot]; exact inv.wf.root_is_src v hv
+  · intro v
+    rw [hroot]
+    constructor
+    · intro e hk
+      exact inv.wf.key_not_src v hk (e ▸ inv.wf.root_is_src v hk)
+    · exact root_of_not_key
+  · intro v hv; rw [hroot]; exact inv.wf.root_src hv
+  · intro v; rw [hroot, hroot]; exact root_of_not_key (inv.wf.root_not_key v)
+  · intro v a hv; rw [hroot, hroot]; exact ⟨inv.asg_root v a hv, inv.asg_self v a hv⟩
+
+/-! ## 2. Order independence -/
+
+/-- Swapping (component_1, variable_1) with (component_2, variable_2) does not change the direction, provided the
+    connection is one the CellML interface rules allow: siblings with exactly one `public_interface="out"`, or a
+    parent and its child (not each other's parent). -/
+theorem direction_swap (par : ParentMap) (vt : VarTable) (c : Conn) (i1 i2 : VarInfo)
+    (h1 : vt.lookup c.end1 = some i1) (h2 : vt.lookup c.end2 = some i2)
+    (hsib : par.lookup c.c1 = par.lookup c.c2 → ((i1.pub = .out) ↔ ¬ (i2.pub = .out)))
+    (hpc : par.lookup c.c1 ≠ par.lookup c.c2 →
+      (par.lookup c.c2 = some c.c1 ∧ par.lookup c.c1 ≠ some c.c2) ∨
+      (par.lookup c.c1 = some c.c2 ∧ par.lookup c.c2 ≠ some c.c1)) :
+    direction par vt c.swap = direction par vt c := by
+  have e1 : c.swap.end1 = c.end2 := rfl
+  have e2 : c.swap.end2 = c.end1 := rfl
+  have c1 : c.swap.c1 = c.c2 := rfl
+  have c2 : c.swap.c2 = c.c1 := rfl
+  unfold direction
+  rw [e1, e2, c1, c2, h1, h2]
+  simp only
+  by_cases hs : par.lookup c.c1 = par.lookup c.c2
+  · have hs' : par.lookup c.c2 = par.lookup c.c1 := hs.symm
+    rw [if_pos hs, if_pos hs']
+    by_cases ho : i1.pub = .out
+    · have := (hsib hs).mp ho
+      rw [if_pos ho, if_neg this]
+    · have : i2.pub = .out := Classical.byContradiction (fun hn => ho ((hsib hs).mpr hn))
+      rw [if_neg ho, if_pos this]
+  · have hs' : ¬ par.lookup c.c2 = par.lookup c.c1 := fun e => hs e.symm
+    rw [if_neg hs, if_neg hs']
+    rcases hpc hs with ⟨ha, hb⟩ | ⟨ha, hb⟩
+    · rw [if_pos ha, if_neg hb]
+    · rw [if_neg hb, if_pos ha]
+
+/-- Without that hypothesis the direction DOES depend on the attribute order: a grandparent's private `out` variable
+    and a grandchild's public `in` variable (not adjacent in the encapsulation hierarchy) are connected in one order
+    and refused in the other. (Such a document violates the CellML connection rules; relevant to C17.) -/
+theorem direction_swap_needs_adjacency :
+    let par : ParentMap := [("C", "P"), ("P", "G")]
+    let vt : VarTable := [(("G", "x"), ⟨[], .none, .out, none, none, ""⟩), (("C", "x"), ⟨[], .inn, .none, none, none, ""⟩)]
+    direction par vt ⟨"C", "x", "G", "x"⟩ = .ok (("G", "x"), ("C", "x")) ∧
+    direction par vt ⟨"G", "x", "C", "x"⟩ = .error (.valueError "Cannot determine the source & target for connection") := by
+  decide
+
+/-- The resolved root of every variable does not depend on the order of the connections: if two lists with the same
+    members (in particular: permutations of one another) are both resolved, every variable has the same root. -/
+theorem connect_perm_root {reg : Registry} {vt : VarTable} {l l' : List (VRef × VRef)} {st st' : CState}
+    (hl : ∀ c, c ∈ l ↔ c ∈ l') (h : connect reg vt l = .ok st) (h' : connect reg vt l' = .ok st') :
+    ∀ v, rootOf st v = rootOf st' v := by
+  obtain ⟨_, hlk, _⟩ := connect_forest h
+  obtain ⟨_, hlk', _⟩ := connect_forest h'
+  have inv := connect_inv h
+  have inv' := connect_inv h'
+  have hlook : ∀ v, st.mapping.lookup v = st'.mapping.lookup v := by
+    intro v
+    cases hv : st.mapping.lookup v with
+    | some s => exact ((hlk' v s).mpr ((hl _).mp ((hlk v s).mp hv))).symm
+    | none =>
+        cases hv' : st'.mapping.lookup v with
+        | none => rfl
+        | some s =>
+            have := (hlk v s).mpr ((hl _).mpr ((hlk' v s).mp hv'))
+            rw [hv] at this; cases this
+  intro v
+  let n := max st.mapping.length st'.mapping.length
+  have e1 : rootOf st v = resolve st.mapping n v := by
+    unfold rootOf
+    rw [inv.wf.resolve_eq_root _ v (Nat.le_refl _), inv.wf.resolve_eq_root n v (Nat.le_max_left _ _)]
+  have e2 : rootOf st' v = resolve st'.mapping n v := by
+    unfold rootOf
+    rw [inv'.wf.resolve_eq_root _ v (Nat.le_refl _), inv'.wf.resolve_eq_root n v (Nat.le_max_right _ _)]
+  rw [e1, e2]
+  exact resolve_congr hlook n v
+
+theorem connect_perm {reg : Registry} {vt : VarTable} {l l' : List (VRef × VRef)} {st st' : CState}
+    (hp : l.Perm l') (h : connect reg vt l = .ok st) (h' : connect reg vt l' = .ok st') :
+    ∀ v, rootOf st v = rootOf st' v :=
+  connect_perm_root (fun _ => hp.mem_iff) h h'
+
+/-- the hypotheses of `direction_swap` for one connection: both variables exist, and the two components are siblings
+    with exactly one public `out`, or parent and child -/
+def SwapOK (par : ParentMap) (vt : VarTable) (c : Conn) : Prop :=
+  ∃ i1 i2, vt.lookup c.end1 = some i1 ∧ vt.lookup c.end2 = some i2 ∧
+    (par.lookup c.c1 = par.lookup c.c2 → ((i1.pub = .out) ↔ ¬ (i2.pub = .out))) ∧
+    (par.lookup c.c1 ≠ par.lookup c.c2 →
+      (par.lookup c.c2 = some c.c1 ∧ par.lookup c.c1 ≠ some c.c2) ∨
+      (par.lookup c.c1 = some c.c2 ∧ par.lookup c.c2 ≠ some c.c1))
+
+/-- Writing any subset of the connections of a document the other way round (component_1 ↔ component_2 together with
+    variable_1 ↔ variable_2) gives the same list of directed connections, hence the same model. -/
+theorem directAll_swap (comps : List String) (par : ParentMap) (vt : VarTable) (flip : Conn → Bool) :
+    ∀ (ks : List Conn) (dl : List (VRef × VRef)), (∀ k ∈ ks, SwapOK par vt k) → directAll comps par vt ks = .ok dl →
+      directAll comps par vt (ks.map (fun k => if flip k then k.swap else k)) = .ok dl
+  | [], dl, _, h => h
+  | k :: ks, dl, hok, h => by
+      unfold directAll at h
+      split at h
+      · cases h
+      · rename_i hc1
+        split at h
+        · cases h
+        · rename_i hc2
+          split at h
+          · cases h
+          · rename_i d hd
+            split at h
+            · cases h
+            · rename_i ds hds
+              simp only [Except.ok.injEq] at h; subst h
+              have ih := directAll_swap comps par vt flip ks ds (fun k' hk' => hok k' (List.mem_cons_of_mem _ hk')) hds
+              obtain ⟨i1, i2, h1, h2, hsib, hpc⟩ := hok k List.mem_cons_self
+              have hsw := direction_swap par vt k i1 i2 h1 h2 hsib hpc
+              simp only [List.map_cons]
+              unfold directAll
+              cases hf : flip k with
+              | false => simp only [Bool.false_eq_true, if_false, hc1, hc2, hd, ih]
+              | true =>
+                  have e1 : k.swap.c1 = k.c2 := rfl
+                  have e2 : k.swap.c2 = k.c1 := rfl
+                  simp only [if_true, e1, e2, hc1, hc2, hsw, hd, ih, Bool.false_eq_true, if_false]
+
+/-- The order of the `<connection>` / `<map_variables>` elements does not matter: two connection lists with the same
+    members, both resolved, give every variable the same root. -/
+theorem conns_order_irrelevant {comps : List String} {par : ParentMap} {vt : VarTable} {reg : Registry}
+    {ks ks' : List Conn} {dl dl' : List (VRef × VRef)} {st st' : CState}
+    (hk : ∀ k, k ∈ ks ↔ k ∈ ks') (h1 : directAll comps par vt ks = .ok dl) (h2 : directAll comps par vt ks' = .ok dl')
+    (c1 : connect reg vt dl = .ok st) (c2 : connect reg vt dl' = .ok st') :
+    ∀ v, rootOf st v = rootOf st' v := by
+  obtain ⟨a1, b1⟩ := directAll_spec h1
+  obtain ⟨a2, b2⟩ := directAll_spec h2
+  apply connect_perm_root _ c1 c2
+  intro d
+  constructor
+  · intro hd
+    obtain ⟨k, hkm, hdk⟩ := b1 d hd
+    obtain ⟨d', hd', hdk'⟩ := a2 k ((hk k).mp hkm)
+    rw [hdk] at hdk'; simp only [Except.ok.injEq] at hdk'; rw [hdk']; exact hd'
+  · intro hd
+    obtain ⟨k, hkm, hdk⟩ := b2 d hd
+    obtain ⟨d', hd', hdk'⟩ := a1 k ((hk k).mpr hkm)
+    rw [hdk] at hdk'; simp only [Except.ok.injEq] at hdk'; rw [hdk']; exact hd'
+
+/-! ## 3. Substitution -/
+
+/-- evaluating a renamed expression = evaluating the expression under the composed valuation -/
+theorem eval_rename {α β υ φ : Type} (f : α → β) (g : υ → φ) (usc : φ → Rat) (σ : β → Rat) (δ : β → β → Rat)
+    (e : Expr α υ) :
+    (e.map f g).eval usc σ δ = e.eval (fun u => usc (g u)) (fun a => σ (f a)) (fun x t => δ (f x) (f t)) := by
+  induction e with
+  | num q u => rfl
+  | var a => rfl
+  | diff x t => rfl
+  | add a b iha ihb => simp only [Expr.map, Expr.eval, iha, ihb]
+  | sub a b iha ihb => simp only [Expr.map, Expr.eval, iha, ihb]
+  | mul a b iha ihb => simp only [Expr.map, Expr.eval, iha, ihb]
+  | div a b iha ihb => simp only [Expr.map, Expr.eval, iha, ihb]
+  | neg a iha => simp only [Expr.map, Expr.eval, iha]
+  | powi a n iha => simp only [Expr.map, Expr.eval, iha]
+
+theorem sat_rename {α β υ φ : Type} (f : α → β) (g : υ → φ) (usc : φ → Rat) (σ : β → Rat) (δ : β → β → Rat)
+    (e : Eqn α υ) :
+    (e.map f g).Sat usc σ δ ↔ e.Sat (fun u => usc (g u)) (fun a => σ (f a)) (fun x t => δ (f x) (f t)) := by
+  unfold Eqn.Sat Eqn.map
+  simp only [eval_rename]
+  cases e.lhs <;> exact Iff.rfl
+
+/-! ## 4. Soundness of loading -/
+
+/-- what the theorems need of the interpretation of scales as numbers -/
+structure DenOK (den : Scale → Rat) : Prop where
+  congr : ∀ a b : Scale, a ≃ b → den a = den b
+  one   : den [] = 1
+
+/-- the executable interpretation (exact for integer exponents) is an instance -/
+theorem denOK_denInt : DenOK denInt where
+  congr a b h := by unfold denInt; rw [norm_eq_of_equiv h]
+  one := by decide
+
+/-- SI value of one document unit -/
+def uscD (den : Scale → Rat) (L : Loaded) (u : String) : Rat := uscF den L.reg (unitF L.ust u)
+
+/-- the document differentiates this variable (or one connected to it) -/
+def IsState (doc : Doc) (L : Loaded) (v : VRef) : Prop :=
+  ∃ c ∈ doc.comps, ∃ e ∈ c.eqs, ∃ x t, e.lhs = .diff x t ∧ rootOf L.st (c.name, x) = rootOf L.st v
+
+/-- DOCUMENT SEMANTICS. `σ` (SI value of every (component, variable)) and `δ` (SI value of every derivative) satisfy the
+    document: every equation of every component holds physically over the component's own variables; every
+    connection equates its two ends (as functions of time: also under derivatives); a variable with an initial value
+    that is not a state is that constant. -/
+structure DocSat (doc : Doc) (L : Loaded) (den : Scale → Rat) (σ : VRef → Rat) (δ : VRef → VRef → Rat) : Prop where
+  eqs    : ∀ c ∈ doc.comps, ∀ e ∈ c.eqs,
+             e.Sat (uscD den L) (fun x => σ (c.name, x)) (fun x t => δ (c.name, x) (c.name, t))
+  conns  : ∀ k ∈ doc.conns, σ k.end1 = σ k.end2
+  dconn₁ : ∀ k ∈ doc.conns, ∀ y, δ k.end1 y = δ k.end2 y
+  dconn₂ : ∀ k ∈ doc.conns, ∀ x, δ x k.end1 = δ x k.end2
+  inits  : ∀ c ∈ doc.comps, ∀ d ∈ c.vars, ∀ q, d.init = some q → ¬ IsState doc L (c.name, d.name) →
+             σ (c.name, d.name) = q * uscD den L d.units
+
+/-- FLAT SEMANTICS: every equation of the flat model holds physically. -/
+def FlatSat (den : Scale → Rat) (F : Flat) (τ : VRef → Rat) (δ : VRef → VRef → Rat) : Prop :=
+  ∀ e ∈ F.eqs, e.Sat (uscF den F.reg) τ δ
+
+/-- what RELAX NG validation guarantees and the theorems use: an initial value only on a variable without an `in`
+    interface (cellml_1_0.rnc, `cellml.variable`) -/
+def InitOnSources (doc : Doc) : Prop :=
+  ∀ c ∈ doc.comps, ∀ d ∈ c.vars, d.init.isSome → d.pub ≠ .inn ∧ d.priv ≠ .inn
+
+theorem prepare_spec {doc : Doc} {L : Loaded} (h : prepare doc = .ok L) :
+    L.vt = varTable L.ust doc.comps ∧ connect L.reg L.vt L.dl = .ok L.st ∧
+    directAll (doc.comps.map (·.name)) L.par L.vt doc.conns = .ok L.dl := by
+  unfold prepare at h
+  split at h
+  · cases h
+  · split at h
+    · cases h
+    · simp only at h
+      split at h
+      · cases h
+      · split at h
+        · cases h
+        · split at h
+          · cases h
+          · rename_i hc
+            simp only [Except.ok.injEq] at h
+            subst h
+            rename_i hd _ _
+            exact ⟨rfl, hc, hd⟩
+
+theorem load_flat {doc : Doc} {F : Flat} (h : load doc = .ok F) : ∃ L, prepare doc = .ok L ∧ F = L.flat doc := by
+  unfold load at h
+  split at h
+  · cases h
+  · rename_i L hL
+    split at h
+    · cases h
+    · split at h
+      · cases h
+      · simp only [Except.ok.injEq] at h
+        exact ⟨L, hL, h.symm⟩
+
+/-- the conversion factor of a connection equation, read with its unit `target.units / source.units`, is physically 1 -/
+theorem conv_factor_one {reg : Registry} {su tu : Container} {cf : Scale} (h : Units.factor reg su tu = .ok cf) :
+    PMap.add cf (Units.toRoot reg (PMap.sub tu su)).1 ≃ [] := by
+  have hcf : cf ≃ PMap.sub (Units.toRoot reg su).1 (Units.toRoot reg tu).1 := by
+    unfold Units.factor at h
+    split at h
+    · cases h
+    · split at h
+      · simp only [Except.ok.injEq] at h; subst h; exact norm_equiv _
+      · cases h
+  have h1 := (Units.toRoot_add reg tu (PMap.smul (-1) su)).1
+  have h2 := (Units.toRoot_smul reg (-1) su).1
+  intro p
+  have e1 := h1 p
+  have e2 := h2 p
+  have e3 := hcf p
+  simp only [PMap.sub, PMap.neg, get_add, get_smul, get_nil] at *
+  rw [e3, e1, e2]
+  grind
+
+/-- a function that agrees on the two ends of every recorded connection agrees on a variable and its root -/
+theorem root_respects {β : Type} (f : VRef → β) : ∀ (m : List (VRef × VRef)), (∀ t s, (t, s) ∈ m → f t = f s) →
+    ∀ v, f (root m v) = f v
+  | [], _, _ => rfl
+  | (t0, s0) :: m, h, v => by
+      have ih := root_respects f m (fun t s hm => h t s (List.mem_cons_of_mem _ hm))
+      simp only [root]
+      split
+      · rename_i hv; rw [ih s0, hv]; exact (h t0 s0 List.mem_cons_self).symm
+      · exact ih v
+
+theorem mem_varTable {ust : Units.Store} {comps : List Comp} {v : VRef} {i : VarInfo} :
+    (v, i) ∈ varTable ust comps ↔ ∃ c ∈ comps, ∃ d ∈ c.vars, (v, i) = entry ust c.name d := by
+  unfold varTable
+  simp only [List.mem_flatMap, List.mem_map]
+  constructor
+  · rintro ⟨c, hc, d, hd, e⟩; exact ⟨c, hc, d, hd, e.symm⟩
+  · rintro ⟨c, hc, d, hd, e⟩; exact ⟨c, hc, d, hd, e.symm⟩
+
+theorem mem_statesOf {eqs : List FlatEq} {v : VRef} :
+    v ∈ statesOf eqs ↔ ∃ e ∈ eqs, e.lhs.isDiff = true ∧ e.lhs.defines = v := by
+  unfold statesOf
+  simp only [List.mem_map, List.mem_filter]
+  constructor
+  · rintro ⟨e, ⟨he, hd⟩, hv⟩; exact ⟨e, he, hd, hv⟩
+  · rintro ⟨e, he, hd, hv⟩; exact ⟨e, ⟨he, hd⟩, hv⟩
+
+theorem mem_mathsOf {ust : Units.Store} {st : CState} {comps : List Comp} {e : FlatEq} :
+    e ∈ mathsOf ust st comps ↔ ∃ c ∈ comps, ∃ e0 ∈ c.eqs, e = transcribe ust st c.name e0 := by
+  unfold mathsOf
+  simp only [List.mem_flatMap, List.mem_map]
+  constructor
+  · rintro ⟨c, hc, e0, he0, h⟩; exact ⟨c, hc, e0, he0, h.symm⟩
+  · rintro ⟨c, hc, e0, he0, h⟩; exact ⟨c, hc, e0, he0, h.symm⟩
+
+/-- a source variable is a state of the flat model iff the document differentiates a variable connected to it -/
+theorem state_iff {doc : Doc} {L : Loaded} {v : VRef} (hv : rootOf L.st v = v) :
+    v ∈ L.states doc ↔ IsState doc L v := by
+  unfold Loaded.states Loaded.maths IsState
+  rw [mem_statesOf]
+  constructor
+  · rintro ⟨e, he, hd, hdef⟩
+    obtain ⟨c, hc, e0, he0, rfl⟩ := mem_mathsOf.mp he
+    refine ⟨c, hc, e0, he0, ?_⟩
+    unfold transcribe Eqn.map at hd hdef
+    cases hl : e0.lhs with
+    | var a => rw [hl] at hd; simp [Lhs.map, Lhs.isDiff] at hd
+    | diff x t =>
+        rw [hl] at hdef
+        simp only [Lhs.map, Lhs.defines] at hdef
+        exact ⟨x, t, rfl, by rw [hdef, hv]⟩
+  · rintro ⟨c, hc, e0, he0, x, t, hl, hr⟩
+    refine ⟨transcribe L.ust L.st c.name e0, mem_mathsOf.mpr ⟨c, hc, e0, he0, rfl⟩, ?_, ?_⟩
+    · unfold transcribe Eqn.map; rw [hl]; rfl
+    · unfold transcribe Eqn.map; rw [hl]; simp only [Lhs.map, Lhs.defines]; rw [hr, hv]
+
+/-- facts about a successfully loaded document used by both directions -/
+theorem loaded_facts {doc : Doc} {L : Loaded} (hprep : prepare doc = .ok L) :
+    (∀ k ∈ doc.conns, rootOf L.st k.end1 = rootOf L.st k.end2) ∧
+    (∀ t s, (t, s) ∈ L.st.mapping → ∃ k ∈ doc.conns, (t = k.end1 ∧ s = k.end2) ∨ (t = k.end2 ∧ s = k.end1)) := by
+  obtain ⟨_, hconn, hdir⟩ := prepare_spec hprep
+  obtain ⟨hd1, hd2⟩ := directAll_spec hdir
+  have inv := connect_inv hconn
+  have hroot : ∀ v, rootOf L.st v = root L.st.mapping v := fun v => inv.wf.resolve_eq_root _ v (Nat.le_refl _)
+  constructor
+  · intro k hk
+    obtain ⟨⟨s, t⟩, hd, hdk⟩ := hd1 k hk
+    have hm : (t, s) ∈ L.st.mapping := by
+      rcases inv.conn_in (s, t) hd with h | h
+      · simp at h
+      · exact h
+    have := inv.wf.root_mem t s hm
+    rw [hroot, hroot]
+    rcases direction_ends hdk with ⟨rfl, rfl⟩ | ⟨rfl, rfl⟩
+    · exact this.symm
+    · exact this
+  · intro t s hm
+    obtain ⟨k, hk, hdk⟩ := hd2 (s, t) (inv.map_from t s hm)
+    refine ⟨k, hk, ?_⟩
+    rcases direction_ends hdk with ⟨rfl, rfl⟩ | ⟨rfl, rfl⟩
+    · exact Or.inr ⟨rfl, rfl⟩
+    · exact Or.inl ⟨rfl, rfl⟩
+
+/-- a variable with an initial value is its own root (in a schema-valid document) -/
+theorem init_root_self {doc : Doc} {L : Loaded} (hprep : prepare doc = .ok L) (hvalid : InitOnSources doc)
+    {c : Comp} (hc : c ∈ doc.comps) {d : VarDecl} (hd : d ∈ c.vars) (hi : d.init.isSome) :
+    rootOf L.st (c.name, d.name) = (c.name, d.name) := by
+  obtain ⟨hvt, hconn, _⟩ := prepare_spec hprep
+  obtain ⟨_, _, _, _, _, _, hsrc, _⟩ := connect_forest hconn
+  apply hsrc
+  have hm : entry L.ust c.name d ∈ L.vt := by rw [hvt]; exact mem_varTable.mpr ⟨c, hc, d, hd, rfl⟩
+  apply src_of_mem hm
+  obtain ⟨h1, h2⟩ := hvalid c hc d hd hi
+  simp only [VarInfo.isSrc]
+  cases hp : d.pub <;> cases hq : d.priv <;> simp_all
+
+/-- `load_sound`, from the flat model to the document: every physical solution of the flat model, read through `root`,
+    is a physical solution of the document. -/
+theorem load_sound {doc : Doc} {F : Flat} {den : Scale → Rat} (hload : load doc = .ok F) (hvalid : InitOnSources doc)
+    (τ : VRef → Rat) (δ : VRef → VRef → Rat) (hsat : FlatSat den F τ δ) :
+    ∃ L, prepare doc = .ok L ∧
+      DocSat doc L den (fun v => τ (rootOf L.st v)) (fun x t => δ (rootOf L.st x) (rootOf L.st t)) := by
+  obtain ⟨L, hprep, rfl⟩ := load_flat hload
+  refine ⟨L, hprep, ?_⟩
+  obtain ⟨hconns, _⟩ := loaded_facts hprep
+  obtain ⟨hvt, _, _⟩ := prepare_spec hprep
+  have hF : ∀ e, e ∈ L.st.convs.map ConvEq.toEq ++ L.maths doc ++ constsOf (L.states doc) L.vt →
+      e.Sat (uscF den L.reg) τ δ := hsat
+  refine ⟨?_, ?_, ?_, ?_, ?_⟩
+  · intro c hc e he
+    have hm : transcribe L.ust L.st c.name e ∈ L.maths doc := mem_mathsOf.mpr ⟨c, hc, e, he, rfl⟩
+    have := hF _ (List.mem_append_left _ (List.mem_append_right _ hm))
+    exact (sat_rename (fun x => rootOf L.st (c.name, x)) (unitF L.ust) (uscF den L.reg) τ δ e).mp this
+  · intro k hk; simp only [hconns k hk]
+  · intro k hk y; simp only [hconns k hk]
+  · intro k hk x; simp only [hconns k hk]
+  · intro c hc d hd q hq hns
+    have hself := init_root_self hprep hvalid hc hd (by rw [hq]; rfl)
+    have hnot : (c.name, d.name) ∉ L.states doc := fun hs => hns ((state_iff hself).mp hs)
+    have hm : entry L.ust c.name d ∈ L.vt := by rw [hvt]; exact mem_varTable.mpr ⟨c, hc, d, hd, rfl⟩
+    have hcm : (⟨.var (c.name, d.name), .num q (unitF L.ust d.units)⟩ : FlatEq) ∈ constsOf (L.states doc) L.vt := by
+      unfold constsOf
+      rw [List.mem_filterMap]
+      refine ⟨entry L.ust c.name d, hm, ?_⟩
+      have : (L.states doc).contains (c.name, d.name) = false := by
+        simpa using hnot
+      simp only [entry, this, hq, Option.map_some, unitF]
+      rfl
+    have := hF _ (List.mem_append_right _ hcm)
+    simp only [Eqn.Sat, Lhs.eval, Expr.eval] at this
+    show τ (rootOf L.st (c.name, d.name)) = q * uscD den L d.units
+    rw [hself]; exact this
+
+/-- `load_sound` in magnitudes: if `ν` gives every flat variable its magnitude in its declared unit (`sc x ≠ 0` the SI
+    scale of that unit) then the magnitude of a document variable `(c, v)` in ITS declared unit is
+    `ν (root (c,v)) · sc (root (c,v)) / sc (c,v)` — the value of its ultimate source times the ratio of the unit scales. -/
+theorem load_sound_numeric {doc : Doc} {F : Flat} {den : Scale → Rat} (hload : load doc = .ok F)
+    (hvalid : InitOnSources doc) (ν sc : VRef → Rat) (hsc : ∀ v, sc v ≠ 0) (δ : VRef → VRef → Rat)
+    (hsat : FlatSat den F (fun x => ν x * sc x) δ) :
+    ∃ L, prepare doc = .ok L ∧
+      DocSat doc L den (fun v => (ν (rootOf L.st v) * sc (rootOf L.st v) / sc v) * sc v)
+        (fun x t => δ (rootOf L.st x) (rootOf L.st t)) := by
+  obtain ⟨L, hprep, h⟩ := load_sound hload hvalid (fun x => ν x * sc x) δ hsat
+  refine ⟨L, hprep, ?_⟩
+  have e : (fun v => (ν (rootOf L.st v) * sc (rootOf L.st v) / sc v) * sc v) =
+      (fun v => ν (rootOf L.st v) * sc (rootOf L.st v)) := by
+    funext v
+    exact Rat.div_mul_cancel (hsc v)
+  rw [e]; exact h
+
+/-- `load_sound`, from the document to the flat model: every physical solution of the document is, as it stands, a
+    physical solution of the flat model (the flat variables ARE document variables). -/
+theorem load_complete {doc : Doc} {F : Flat} {den : Scale → Rat} (hden : DenOK den) (hload : load doc = .ok F)
+    (hvalid : InitOnSources doc) (σ : VRef → Rat) (δ : VRef → VRef → Rat)
+    (L : Loaded) (hprep : prepare doc = .ok L) (hsat : DocSat doc L den σ δ) :
+    FlatSat den F σ δ := by
+  obtain ⟨L', hprep', rfl⟩ := load_flat hload
+  rw [hprep] at hprep'
+  simp only [Except.ok.injEq] at hprep'
+  subst hprep'
+  obtain ⟨_, hmap⟩ := loaded_facts hprep
+  obtain ⟨hvt, hconn, _⟩ := prepare_spec hprep
+  have inv := connect_inv hconn
+  have hroot : ∀ v, rootOf L.st v = root L.st.mapping v := fun v => inv.wf.resolve_eq_root _ v (Nat.le_refl _)
+  -- σ and δ do not distinguish a variable from its root
+  have hσ : ∀ v, σ (rootOf L.st v) = σ v := by
+    intro v; rw [hroot]
+    apply root_respects σ
+    intro t s hm
+    obtain ⟨k, hk, h | h⟩ := hmap t s hm
+    · rw [h.1, h.2]; exact hsat.conns k hk
+    · rw [h.1, h.2]; exact (hsat.conns k hk).symm
+  have hδ₁ : ∀ x y, δ (rootOf L.st x) y = δ x y := by
+    intro x y; rw [hroot]
+    apply root_respects (fun x => δ x y)
+    intro t s hm
+    obtain ⟨k, hk, h | h⟩ := hmap t s hm
+    · rw [h.1, h.2]; exact hsat.dconn₁ k hk y
+    · rw [h.1, h.2]; exact (hsat.dconn₁ k hk y).symm
+  have hδ₂ : ∀ x y, δ x (rootOf L.st y) = δ x y := by
+    intro x y; rw [hroot]
+    apply root_respects (fun y => δ x y)
+    intro t s hm
+    obtain ⟨k, hk, h | h⟩ := hmap t s hm
+    · rw [h.1, h.2]; exact hsat.dconn₂ k hk x
+    · rw [h.1, h.2]; exact (hsat.dconn₂ k hk x).symm
+  intro e he
+  have he' : e ∈ L.st.convs.map ConvEq.toEq ++ L.maths doc ++ constsOf (L.states doc) L.vt := he
+  simp only [List.mem_append] at he'
+  rcases he' with (he' | he') | he'
+  · -- conversion equation
+    obtain ⟨ce, hce, rfl⟩ := List.mem_map.mp he'
+    obtain ⟨_, _, hr, hf⟩ := inv.conv_ok ce hce
+    have h1 : uscF den L.reg (ce.cf, PMap.sub ce.tu ce.su) = 1 := by
+      unfold uscF; rw [hden.congr _ _ (conv_factor_one hf), hden.one]
+    have h2 : σ ce.src = σ ce.target := by
+      rw [← hσ ce.src, ← hσ ce.target, hroot, hroot, hr]
+    show σ ce.target = σ ce.src * (1 * uscF den L.reg (ce.cf, PMap.sub ce.tu ce.su))
+    rw [h1, h2]; grind
+  · -- component equation
+    obtain ⟨c, hc, e0, he0, rfl⟩ := mem_mathsOf.mp he'
+    apply (sat_rename (fun x => rootOf L.st (c.name, x)) (unitF L.ust) (uscF den L.reg) σ δ e0).mpr
+    have := hsat.eqs c hc e0 he0
+    simp only [hσ, hδ₁, hδ₂]
+    exact this
+  · -- constant
+    unfold constsOf at he'
+    rw [List.mem_filterMap] at he'
+    obtain ⟨⟨v, i⟩, hm, hx⟩ := he'
+    rw [hvt] at hm
+    obtain ⟨c, hc, d, hd, hentry⟩ := mem_varTable.mp hm
+    simp only at hx
+    split at hx
+    · cases hx
+    · rename_i hns
+      cases hi : i.init with
+      | none => rw [hi] at hx; cases hx
+      | some q =>
+          rw [hi] at hx
+          simp only [Option.map_some, Option.some.injEq] at hx
+          subst hx
+          have hv : v = (c.name, d.name) := by
+            have := congrArg Prod.fst hentry; simpa [entry] using this
+          have hi' : i = (entry L.ust c.name d).2 := congrArg Prod.snd hentry
+          have hq : d.init = some q := by rw [hi'] at hi; simpa [entry] using hi
+          have hself := init_root_self hprep hvalid hc hd (by rw [hq]; rfl)
+          have hnot : ¬ IsState doc L (c.name, d.name) := by
+            intro hs
+            have := (state_iff hself).mpr hs
+            rw [← hv] at this
+            have hc' : (L.states doc).contains v = true := by simpa using this
+            exact hns hc'
+          have := hsat.inits c hc d hd q hq hnot
+          show σ v = q * uscF den L.reg ([], i.units)
+          rw [hv, this, hi']
+          rfl
+
+/-! ## 5. Non-vacuity: a 3-component relay with mV → V -/
+
+/-- membrane (owns `V` in mV, `V = 2 mV + 0.5 V`) ⊃ channel (relays `V` in volt to its child) ⊃ gate (reads `v` in mV,
+    `y = v + 1 mV`). Connections are written child-first and the file order is reversed. -/
+def relayDoc : Doc :=
+  { units := [.derived "mV" [{ units := "volt", pfx := some "milli" }]]
+    comps := [
+      ⟨"gate", [⟨"v", "mV", .inn, .none, none, none⟩, ⟨"y", "mV", .none, .none, none, none⟩],
+        [⟨.var "y", .add (.var "v") (.num 1 "mV")⟩]⟩,
+      ⟨"channel", [⟨"V", "volt", .inn, .out, none, none⟩], []⟩,
+      ⟨"membrane", [⟨"V", "mV", .none, .out, none, none⟩],
+        [⟨.var "V", .add (.num 2 "mV") (.num (1/2) "volt")⟩]⟩]
+    encaps := [(none, "membrane"), (some "membrane", "channel"), (some "channel", "gate")]
+    conns := [⟨"gate", "v", "channel", "V"⟩, ⟨"channel", "V", "membrane", "V"⟩] }
+
+def relayUnits : Registry × Units.Store :=
+  match buildUnits relayDoc.units (Units.builtinRegistry, { id := 0, known := [] }) with
+  | .ok p => p
+  | .error _ => ([], { id := 0, known := [] })
+def relayNames : List String := relayDoc.comps.map (·.name)
+def relayVt : VarTable := varTable relayUnits.2 relayDoc.comps
+def relayPar : ParentMap :=
+  match buildParents relayNames relayDoc.encaps [] [] with
+  | .ok p => p
+  | .error _ => []
+def relayDl : List (VRef × VRef) :=
+  match directAll relayNames relayPar relayVt relayDoc.conns with
+  | .ok d => d
+  | .error _ => []
+def relaySt : CState :=
+  match connectLoopF relayUnits.1 relayVt 10 relayDl 0 (initState relayVt) with
+  | some (.ok st) => st
+  | _ => initState relayVt
+def relayL : Loaded := ⟨relayUnits.1, relayUnits.2, relayVt, relayPar, relayDl, relaySt⟩
+
+/-- the first connection of the file (gate ← channel) cannot be resolved before the second: the deque is rotated once -/
+theorem relay_connect : connect relayUnits.1 relayVt relayDl = .ok relaySt :=
+  connect_of_fuel 10 (by decide +kernel)
+
+theorem relay_prepare : prepare relayDoc = .ok relayL :=
+  prepare_of_parts (chk := ([("membrane", "V"), ("channel", "V"), ("gate", "y"), ("gate", "v")], []))
+    (by decide +kernel) (by decide +kernel) (by decide +kernel) (by decide +kernel) relay_connect
+
+theorem relay_load : load relayDoc = .ok (relayL.flat relayDoc) :=
+  load_of_parts (defined := [("membrane", "V"), ("gate", "y"), ("channel", "V"), ("gate", "v")])
+    relay_prepare (by decide +kernel) (by decide +kernel)
+
+/-- the flat model: two conversion equations (mV → volt with factor 10⁻³, volt → mV with factor 10³), and the two
+    component equations, in which `gate$v` has been replaced by its ultimate source `membrane$V` -/
+example : (relayL.flat relayDoc).eqs =
+    [⟨.var ("channel", "V"), .mul (.var ("membrane", "V")) (.num 1 ([(2, -3), (5, -3)], [("volt", 1), ("store0_mV", -1)]))⟩,
+     ⟨.var ("gate", "v"), .mul (.var ("channel", "V")) (.num 1 ([(2, 3), (5, 3)], [("store0_mV", 1), ("volt", -1)]))⟩,
+     ⟨.var ("gate", "y"), .add (.var ("membrane", "V")) (.num 1 ([], [("store0_mV", 1)]))⟩,
+     ⟨.var ("membrane", "V"), .add (.num 2 ([], [("store0_mV", 1)])) (.num (1/2) ([], [("volt", 1)]))⟩] := by
+  decide +kernel
+
+example : rootOf relaySt ("gate", "v") = ("membrane", "V") ∧ rootOf relaySt ("channel", "V") = ("membrane", "V") ∧
+    relaySt.asg ("gate", "v") = some ("gate", "v") ∧
+    (initAssigned relayVt).lookup ("membrane", "V") = some ("membrane", "V") := by
+  decide +kernel
+
+/-- `connect_perm` is not vacuous: the other order of the two connections is resolved too (without rotation) -/
+example : ∃ st', connect relayUnits.1 relayVt relayDl.reverse = .ok st' ∧ relayDl.Perm relayDl.reverse :=
+  ⟨_, connect_of_fuel (r := .ok (match connectLoopF relayUnits.1 relayVt 10 relayDl.reverse 0 (initState relayVt) with
+      | some (.ok st) => st
+      | _ => initState relayVt)) 10 (by decide +kernel), (List.reverse_perm _).symm⟩
+
+/-- `direction_swap` is not vacuous: the parent-child connection gate–channel satisfies its hypotheses -/
+example : direction relayPar relayVt (Conn.swap ⟨"gate", "v", "channel", "V"⟩) =
+    direction relayPar relayVt ⟨"gate", "v", "channel", "V"⟩ := by
+  decide +kernel
+
+theorem relay_valid : InitOnSources relayDoc := by
+  unfold InitOnSources; decide +kernel
+
+/-- a physical solution of the flat model: V = 2 mV + 0.5 V = 0.502 V everywhere, y = 0.503 V -/
+def relayτ (v : VRef) : Rat := if v = ("gate", "y") then 503 / 1000 else 502 / 1000
+
+theorem relay_flatSat : FlatSat denInt (relayL.flat relayDoc) relayτ (fun _ _ => 0) := by
+  unfold FlatSat; decide +kernel
+
+/-- `load_sound` applied: the document's own equations and connections hold of the flat solution read through `root` -/
+example : ∃ L, prepare relayDoc = .ok L ∧
+    DocSat relayDoc L denInt (fun v => relayτ (rootOf L.st v)) (fun _ _ => 0) :=
+  load_sound relay_load relay_valid relayτ (fun _ _ => 0) relay_flatSat
+
+/-- and back (`load_complete`): that document solution solves the flat model -/
+example (σ : VRef → Rat) (δ : VRef → VRef → Rat) (h : DocSat relayDoc relayL denInt σ δ) :
+    FlatSat denInt (relayL.flat relayDoc) σ δ :=
+  load_complete denOK_denInt relay_load relay_valid σ δ relayL relay_prepare h
+
+end Cellml.Props.C01
